@@ -26,6 +26,8 @@ LINKS = {
   17: '2 44100 30 20000 18 bs0=6',
   18: '1 22050 10 6000 19 bs0=7',
   19: '2 44100 30 6000 20',
+  20: '2 44100 30 20000 21 trim=96,2',     # first page announces 32 samples but decodes to 128: begin-trimmed
+  21: '1 22050 40 7000 22 trim=200,3',
 }
 FILES = {
   'A': '0',
@@ -49,6 +51,8 @@ FILES = {
   'S': '0:ppp=3 17 18:ppp=1',
   'T': '19 6',
   'U': '19:ppp=2',
+  'V': '20:ppp=2',
+  'X': '6 21:ppp=3 20:ppp=2:s=31',
 }
 
 def links_of(fkey):
